@@ -227,12 +227,14 @@ def unfocus_fixed_sampling_backprop(wavefunction, input_dx, prop_dist,
     if not isinstance(output_samples, Iterable):
         output_samples = (output_samples, output_samples)
 
-    # Q per axis (row, col)
+    # Q per axis (row, col); output_samples is the shape of the array that was
+    # given to unfocus_fixed_sampling, and Q must be the same as on the way
+    # forward: (wvl z) / (output_dx * input_dx * output_samples)
     Q = tuple(Q_for_sampling(input_diameter=output_dx*so,
                              prop_dist=prop_dist,
                              wavelength=wavelength,
-                             output_dx=input_dx) / (si / so)  # not a typo
-              for si, so in zip(wavefunction.shape, output_samples))
+                             output_dx=input_dx)  # not a typo
+              for so in output_samples)
 
     if shift[0] != 0 or shift[1] != 0:
         shift = (shift[0]/output_dx, shift[1]/output_dx)
